@@ -607,3 +607,30 @@ theorem C11_residual_cap_unpatched_partial {α : Type} [Num α] (cap : Int) (lm 
       omega
 
 end Clem.T2
+
+namespace Clem.T2
+
+/-- The tier monitor used on results of the parallel (sharded) path is implied by the full one
+(it only waives the global top-m cluster rule), so it too is `true` of the model's output. -/
+theorem C11_mon_tier_par {α : Type} [Num α] (c : Cfg α) (tiers : List Nat) (eps : List (Ep α))
+    (hits : List (Hit α)) (h : monTier c tiers eps hits = true) :
+    monTierPar c tiers eps hits = true := by
+  unfold monTier at h
+  unfold monTierPar
+  rw [List.all_eq_true] at h ⊢
+  intro x hx
+  have hx' := h x hx
+  rw [List.any_eq_true] at hx' ⊢
+  obtain ⟨e, he, hex⟩ := hx'
+  refine ⟨e, he, ?_⟩
+  unfold explains at hex
+  unfold explainsPar
+  simp only [Bool.and_eq_true, List.any_eq_true] at hex ⊢
+  obtain ⟨h1, t, ht, hto⟩ := hex
+  refine ⟨h1, t, ht, ?_⟩
+  unfold tierOkPar
+  split
+  · rfl
+  · exact hto
+
+end Clem.T2
